@@ -18,9 +18,11 @@
     a content type the Accept header admits ([nv]), well-formed, and names the realm;
     [same_reply] = "identically".  [seen_ok_w w] = the same with the clauses [w] waived.
 
-    Findings (guards): C12-F1 [xguard_F1] (a WWW-Authenticate header is demanded), C12-F2
-    [xguard_F2] / [guard_F2] (the status to send is no three-digit code), C12-F4
-    [xguard_F4] (precondition override from a configuration file). *)
+    Findings (guards): C12-F1 [xguard_F1] (a WWW-Authenticate header is demanded), C12-F2 /
+    C12-F5 [xguard_F2] / [guard_F2] = [guard_F2o_class] (an override that is no three-digit code)
+    or [guard_F5_class] (a hand-built redirect error value with such a code); repaired: C12-F4
+    [xguard_F4] (precondition override from a configuration file; fix: ed62adc, [fx4 = true];
+    [as_is] = the tree as it is now). *)
 From HV Require Import Base.Prelude Base.ErrChain C12.Model C12.Inputs C12.Spec C12.Stack C12.Proofs C12.StackProofs
   Run.Eval_C12 C12.EvalSound.
 Local Open Scope Z_scope.
@@ -77,6 +79,13 @@ Theorem C12_F2_refuted :
     http_status (http_handle c o e no_hdrs) <> option_map g_status (grpc_handle c o e).
 Proof. exact F2_refuted. Qed.
 Print Assumptions C12_F2_refuted.
+
+(** C12-F5: the same split for a redirect error value built by hand with a code that is no status *)
+Theorem C12_F5_refuted :
+  exists c o e, guard_F5_class (spec_class e) = true /\ guard_F2o_class c (spec_class e) = false /\
+    http_status (http_handle c o e no_hdrs) <> option_map g_status (grpc_handle c o e).
+Proof. exact F5_refuted. Qed.
+Print Assumptions C12_F5_refuted.
 
 (** no translator ever answers a failure with a success status (1xx/2xx) or an OK
     gRPC code — provided no override and no redirect code is such a status;
@@ -161,6 +170,21 @@ Theorem C12_entry_points_meet_spec : forall fx file c o nv sc,
 Proof. exact entry_points_meet_spec. Qed.
 Print Assumptions C12_entry_points_meet_spec.
 
+(** the tree as it is (C12-F4 repaired): only the guards of C12-F1 and C12-F2 remain *)
+Theorem C12_entry_points_meet_spec_as_is : forall file c o nv sc,
+  oracle_ok nv o = true -> xguard_F1 as_is sc = false -> xguard_F2 c sc = false ->
+  (forall proxy, match sc with XProxy _ => proxy = true | _ => True end ->
+     seen_ok c nv (hyp_never_success c sc) (demand_of sc) (seen_of_hfinal (entry_http as_is proxy file c o sc)) = true) /\
+  match sc with
+  | XProxy _ => True
+  | _ => seen_ok c nv (hyp_never_success c sc) (demand_of sc) (seen_of_gfinal (entry_grpc as_is file c o sc)) = true /\
+         (forall proxy, same_reply (seen_of_hfinal (entry_http as_is proxy file c o sc))
+                                   (seen_of_gfinal (entry_grpc as_is file c o sc)) = true) /\
+         entry_http as_is true file c o sc = entry_http as_is false file c o sc
+  end.
+Proof. exact entry_points_meet_spec_as_is. Qed.
+Print Assumptions C12_entry_points_meet_spec_as_is.
+
 (** ... and INSIDE the guards everything holds except the clause the finding breaks
     ([xwaiver]: C12-F1 waives only the WWW-Authenticate clause — status 401 / override, no
     success status, details only when verbose still hold; C12-F2 and C12-F4 waive only
@@ -225,9 +249,10 @@ Theorem C12_F1_header_never_written : forall c o sc,
 Proof. exact www_header_never_written. Qed.
 Print Assumptions C12_F1_header_never_written.
 
-(** C12-F4: the guard is needed — `precondition_error: {code: 418}` in a configuration file:
-    400 on all entry points; 418 when the struct is filled directly or the loader is repaired *)
-Theorem C12_F4_refuted :
+(** C12-F4 (repaired by ed62adc; pinned behaviour [fx4 = false]): `precondition_error: {code: 418}`
+    in a configuration file was answered 400 on all entry points; 418 when the struct is filled
+    directly or with the repaired loader *)
+Theorem C12_F4_pinned_refuted :
   xguard_F4 unrepaired true f4_cfg (d_classes (demand_of f4_sc)) = true /\
   xguard_F1 unrepaired f4_sc = false /\ xguard_F2 (loaded unrepaired true f4_cfg) f4_sc = false /\
   oracle_ok free_view any_oracle = true /\
@@ -239,8 +264,8 @@ Theorem C12_F4_refuted :
           (seen_of_hfinal (entry_http unrepaired false false f4_cfg any_oracle f4_sc)) = true /\
   seen_ok f4_cfg free_view (hyp_never_success f4_cfg f4_sc) (demand_of f4_sc)
           (seen_of_hfinal (entry_http {| fx1 := false; fx4 := true |} false true f4_cfg any_oracle f4_sc)) = true.
-Proof. exact F4_refuted. Qed.
-Print Assumptions C12_F4_refuted.
+Proof. exact F4_pinned_refuted. Qed.
+Print Assumptions C12_F4_pinned_refuted.
 
 (** the entry-point level model extends the scenarios of C12/Model.v (which C01 builds on) *)
 Theorem C12_stack_extends_model : forall c o sc,
